@@ -117,6 +117,11 @@ func (conn *Conn) recv() {
 				req.Rc = NewFcall(conn.Msize)
 			}
 
+			if len(req.Rc.Buf) > int(conn.Msize) {
+				// a recycled buffer may predate a smaller negotiated msize
+				req.Rc.Buf = req.Rc.Buf[:conn.Msize]
+			}
+
 			req.Conn = conn
 			req.Tc = fc
 			//			req.Rc = rc
